@@ -107,6 +107,12 @@ func (g *G) optionalConfig(thorough bool) {
 				}
 				t := a.table()
 				t.nilKEK, t.nilASLabel, t.nilHome = combo.kek, combo.aslabel, combo.homef
+				if t.nilKEK { // a nil function has no table behind it (the decoy entries go too)
+					t.keks = nil
+				}
+				if t.nilASLabel {
+					t.aslabels = nil
+				}
 				g.activationOn(t.handler(), t, &a, "optional-config-nil", "config:"+combo.name+":", nil)
 			}
 			// HomeNSReq through the same kind of handler
